@@ -157,7 +157,7 @@ CHECKS = {
             "(designed GC / N / signal tiles, masked and decoy tiles, both window relations) on which the implementation's returned "
             "loci must be aligned, unique, unmasked, N- and signal-eligible, satisfy the allocation predicates and not depend on "
             "n_jobs.",
-            "Trusted: TLC; tile facts computed by the driver from the generated genome; pyfaidx / pyBigWig; in_window = 8.",
+            "Trusted: TLC; tile facts computed by the driver from the generated genome (1-4 chromosomes, n_jobs 1-3); pyfaidx / pyBigWig; in_window = 8.",
             "DESIGN.md §5 C17"),
     "C19": (["Seqlets", "SeqletsMC", "SeqletOps", "Seqlet_Trace"],
             "step-shaped TLA+ model of the iterative arg-max/suppress extractor (Seqlets.tla) model-checked with TLC (safety, "
@@ -176,7 +176,8 @@ CHECKS = {
             "TLC proves on the complete small scope that the specified dynamic programme equals the enumeration of all 4^w "
             "sequences and satisfies the tail laws; each matrix is run through the implementation and compared bin by bin. For "
             "realistic PWMs up to width 30 TLC computes exact integer tail counts (asserting total mass and monotonicity) against "
-            "which 2**table[b]*4^w is compared.",
+            "which 2**table[b]*4^w is compared, and so is the p-value column of fimo() hits (widths <= 12), including the same motif "
+            "scanned again in the same process with another pseudocount.",
             "Trusted: TLC; 1e-9 relative tolerance; this sandbox's numba/LLVM build only.",
             "DESIGN.md §5 C11"),
     "C12": (["FimoOps", "FimoScan", "FimoLoop", "FimoScan_Trace"],
@@ -187,7 +188,8 @@ CHECKS = {
             "(every start 0..L-w, both strands, score, tail count) and checks the reverse-complement mirror law; the implementation "
             "must report exactly these hits with correct fields, identically for tensor/FASTA input, dim=0/1, return_counts and 1, 2 "
             "and all threads; larger planted/random scans are decided by the trace specification.",
-            "Trusted: TLC; exact lane (log-odds integers, eps=0, non-tie thresholds) so float comparisons inside fimo are exact; "
+            "Trusted: TLC; exact lane (log-odds integers, eps=0) so float comparisons inside fimo are exact; thresholds are non-ties or, "
+            "for ties, the event records on which side the float table entry fell and the specification follows it; "
             "p-values compared as integer tail counts.",
             "DESIGN.md §5 C12"),
     "C13": (["TomtomSched", "TomtomSchedMC", "Tomtom_Trace"],
@@ -198,8 +200,8 @@ CHECKS = {
             "TLC explores every way queries of different lengths can be assigned to and interleaved on the threads and shows that "
             "every scratch region read was written for the current query. On the implementation every query's row must be "
             "bit-identical to its solo single-thread run under 1..8 threads, permutations, subsets, duplicates, short-after-long "
-            "orders, reverse complement and column hashing; n_nearest must return the n smallest p-values ascending with matching "
-            "fields; the poison lane fills all scratch with NaN / 77 and requires unchanged results.",
+            "orders, reverse complement and column hashing; n_nearest (target sets with duplicated motifs, i.e. exact ties at the cut) "
+            "must return the n smallest p-values ascending with matching fields; the poison lane fills all scratch with NaN / 77 and requires unchanged results.",
             "Trusted: TLC; numba's scheduler cannot be forced (the model covers every assignment); CRC32 of float64 bytes.",
             "DESIGN.md §5 C13"),
     "C14": (["Rat", "TomtomScoreOps", "TomtomScore", "TomtomNull", "TomtomScore_Oracle"],
@@ -211,7 +213,8 @@ CHECKS = {
             "max recursion) the best complete score, the set of alignments attaining it, the exact p-value per strand and the "
             "merge, and checks the integeriser's monotonicity against exact squared distances; the implementation's score must be "
             "equal, its (offset, overlap, strand) admissible and its p-value within 1e-9; self-comparison and reverse-complement "
-            "invariance are asserted.",
+            "invariance are asserted; n_score_bins 10-200 incl. full-range cases; where column hashing is injective and the "
+            "integerisation robust, the hashed / reordered / reverse-complemented target sets must reproduce the validated result.",
             "Trusted: TLC; G and u taken from the code's integeriser (as the property allows); exact p-values for lengths <= 3 and "
             "<= 7 pooled columns; the strand-merge square is applied in floating point to TLC's exact smaller p-value.",
             "DESIGN.md §5 C14"),
